@@ -743,3 +743,18 @@ for _b in ("C01", "C04", "C05", "C09", "C10"):
         _p = f"C{_i:02d}"
         VARIANTS.append({"prop": _p, "id": f"{_p}:r13-repaired-refactor-{_b}", "expect": "N", "rule": "", "edits": [],
                          "patchfile": _os.path.join(_BP, f"r13-{_b}.diff")})
+# round 14: sixty behaviour-preserving refactorings written by sub-agents that saw only a property's text (three per property; each
+# passes the unchanged suite and a differential old-vs-new comparison).  None of them may raise a violation in ANY check
+# (exit 0, or exit 2 where the rewritten algorithm is one the rule does not model).
+for _i in range(1, 21):
+    for _k in (1, 2, 3):
+        for _j in range(1, 21):
+            _p = f"C{_j:02d}"
+            VARIANTS.append({"prop": _p, "id": f"{_p}:r14-benign-C{_i:02d}-{_k}", "expect": "N", "rule": "", "edits": [],
+                             "patchfile": _os.path.join(_BP, f"r14-C{_i:02d}-{_k}.diff")})
+# second mutant sweep (mutsweep.py gen2): silent survivors that break a property
+V("C13", "plain-section-lists-other-category", "F", "R11", R + "lint.py", "            for lic in sorted(report.licenses_without_extension):\n", "            for lic in sorted(report.licenses):\n")
+V("C13", "plain-summary-missing-shows-bad", "F", "R11", R + "lint.py", '_("Missing licenses:"): ", ".join(report.missing_licenses),', '_("Missing licenses:"): ", ".join(report.bad_licenses),')
+V("C13", "plain-summary-deprecated-shows-unused", "F", "R11", R + "lint.py", '_("Deprecated licenses:"): ", ".join(report.deprecated_licenses),', '_("Deprecated licenses:"): ", ".join(report.unused_licenses),')
+V("C12", "continue-one-past-end-marker-in-rest", "F", "R2", R + "extract.py", "filter_ignore_block(rest[ignore_end:])", "filter_ignore_block(rest[ignore_end + 1 :])")
+V("C12", "continue-at-start-offset-in-rest", "F", "R2", R + "extract.py", "filter_ignore_block(rest[ignore_end:])", "filter_ignore_block(rest[ignore_start:])")
